@@ -57,6 +57,6 @@ man = dict(
              for e, ps in sorted(engines.items())],
     checks=checks,
     not_applicable=na,
-    notes="Technique family: runtime monitoring and sanitizers. Every check runs the real code from /repo's working tree (built with -tags verif) under generated workloads in child processes and decides with oracles over observed executions; exit 0 held / 1 VIOLATION / 2 broken check. Known genuine defects: /verif/known_findings.json.")
+    notes="Technique family: runtime monitoring and sanitizers. Every check runs the real code from /repo's working tree (built with -tags verif) under generated workloads in child processes and decides with oracles over observed executions; exit 0 held / 1 VIOLATION / 2 broken check. The thorough tier runs the engine for several seed-derived rounds (round r uses seed + 1000003*r; table CHECKS in /verif/vcheck) and merges the results, so the case counts quoted in the level texts are per round. Known genuine defects: /verif/known_findings.json. Seeded-change record (which check catches which change): /verif/seeded/RESULTS.md and DESIGN.md section 11.3.")
 json.dump(man, open(os.path.join(ROOT, "MANIFEST.json"), "w"), indent=1)
 print("MANIFEST.json: %d checks, %d not_applicable" % (len(checks), len(na)))
